@@ -1,7 +1,213 @@
-//! C38 — not built yet.
-use lv_common::Ctx;
+//! C38 — the syncer keeps the store on the network's chain and converges.
+//!
+//! `SyncerSim` (see `syncer_sim.rs`): the real `Syncer` over the mocked `P2p` + `InMemoryStore`.
+//!
+//! Adversarial phase (generated schedule): every header-ex request may be answered by anything the
+//! real header-ex client could deliver (C28's admissible set): the honest run, an honest prefix, a
+//! run of individually valid headers with the requested heights taken from a foreign-key fork (or
+//! honest headers followed by fork headers), or a header-ex error. Head requests are answered
+//! honestly (trusted peers) or fail. Interleaved: pruner-legal prunes, sampling marks, new
+//! header-sub heads, disconnect / reconnect, waiting.
+//!
+//! Honest phase: every pending request is answered honestly, one batch (= one round) at a time;
+//! whenever the syncer asks for nothing, the daser marks everything stored as sampled, header-sub
+//! announces the next head and 100 s pass.
+//!
+//! Oracle.
+//!  * Safety, after every step: every header that entered the store is the honest chain's header
+//!    at that height (full equality), and lies at or below the network head.
+//!  * Every batch passes the C24 batch predicate and the C25 window / re-request rules.
+//!  * Bounded liveness: within Σ⌈run/batch⌉ + 5 honest rounds (sum over the maximal runs of missing
+//!    heights at the start of the honest phase) every height inside the sampling window up to the
+//!    network head is stored (or was stored and has been pruned since). A budget overrun is
+//!    inconclusive; being quiescent (a fresh head was delivered, 100 s passed, nothing was requested)
+//!    with the obligation unmet is a violation.
 
-pub fn run(_ctx: &mut Ctx) {
-    eprintln!("C38: check not built yet");
-    std::process::exit(2);
+use std::sync::atomic::{AtomicU64, Ordering};
+
+use lv_common::prelude::*;
+
+use crate::syncer_sim::{Scenario, Sim, Sizes, run_paused, scenario_strategy};
+
+const PROP: &str = "C38";
+const RESERVE: u64 = 96;
+
+/// maximal runs of consecutive heights
+fn runs(v: &[u64]) -> Vec<u64> {
+    let mut out = Vec::new();
+    let mut i = 0;
+    while i < v.len() {
+        let mut j = i;
+        while j + 1 < v.len() && v[j + 1] == v[j] + 1 {
+            j += 1;
+        }
+        out.push((j - i + 1) as u64);
+        i = j + 1;
+    }
+    out
+}
+
+async fn honest_phase(sim: &mut Sim, obs: &mut Obs<'_>, overruns: &AtomicU64) -> Result<bool, Failure> {
+    sim.head_cap = sim.lay.total;
+    sim.step_no += 1;
+    sim.note("honest phase".into());
+    if sim.peers == 0 || sim.trusted == 0 {
+        sim.connect(true);
+        sim.settle(1500).await;
+        sim.observe(obs, PROP).await?;
+    }
+    let missing0 = sim.missing_in_window().await?;
+    // one honest round = one batch served completely and honestly
+    let budget: u64 = runs(&missing0).iter().map(|r| r.div_ceil(sim.batch)).sum::<u64>() + 5;
+    if !missing0.is_empty() {
+        obs.label("honest-phase-starts-with-missing");
+    }
+    let finished0 = sim.batches_finished;
+    let mut idle_rounds = 0u64;
+    loop {
+        let missing = sim.missing_in_window().await?;
+        let rounds = sim.batches_finished - finished0;
+        if missing.is_empty() {
+            obs.label("converged");
+            obs.label(&format!("rounds-left-of-slack-{}", (budget - rounds.min(budget)).min(5)));
+            return Ok(!missing0.is_empty());
+        }
+        if rounds >= budget || idle_rounds > budget {
+            // still active (requests keep coming) but over budget: not decidable here
+            obs.label("liveness-budget-overrun");
+            obs.note(format!(
+                "budget overrun: rounds {rounds} idle {idle_rounds} budget {budget} missing {} history: {}",
+                missing.len(),
+                sim.history()
+            ));
+            overruns.fetch_add(1, Ordering::Relaxed);
+            return Ok(false);
+        }
+        sim.step_no += 1;
+        if !sim.pending.is_empty() {
+            sim.serve_batches(1, obs, PROP).await?;
+            continue;
+        }
+        // Nothing is being requested. The daser catches up and the network produces a block:
+        // the syncer re-evaluates (slow sync is only re-checked on header-sub messages).
+        idle_rounds += 1;
+        obs.label("honest-idle-poke");
+        sim.sample_all().await?;
+        let started = sim.batches_started;
+        let poked = sim.new_head(1, obs);
+        sim.settle(1500).await;
+        sim.observe(obs, PROP).await?;
+        if sim.pending.is_empty() {
+            // flush whatever timer may still be running (try_init backoff is at most 90 s)
+            sim.settle(100_000).await;
+            sim.observe(obs, PROP).await?;
+        }
+        if sim.pending.is_empty() && sim.batches_started == started {
+            let missing = sim.missing_in_window().await?;
+            if missing.is_empty() {
+                continue;
+            }
+            if !poked {
+                obs.label("liveness-spare-heads-exhausted");
+                overruns.fetch_add(1, Ordering::Relaxed);
+                return Ok(false);
+            }
+            // quiescent with the obligation unmet: the harness owns the whole schedule, nothing
+            // else will ever happen
+            return obs
+                .fail(
+                    "C38:not-converged-and-quiescent",
+                    format!(
+                        "heights {:?}.. inside the sampling window (starts at height {}) up to the network head {} are neither stored nor pruned, a trusted peer is connected, everything stored is sampled, a new head was just delivered and 100 s passed, but the syncer requests nothing; history: {}",
+                        &missing[..missing.len().min(8)],
+                        sim.lay.window_low(),
+                        sim.net_head,
+                        sim.history()
+                    ),
+                )
+                .map(|_| false);
+        }
+    }
+}
+
+fn case(sc: &Scenario, obs: &mut Obs<'_>, overruns: &AtomicU64) -> Result<(), Failure> {
+    run_paused(async {
+        let mut sim = Sim::start(sc, RESERVE, obs).await?;
+        let mut r = sim.observe(obs, PROP).await;
+        if r.is_ok() {
+            for st in &sc.steps {
+                r = sim.step(st, obs, PROP).await;
+                if r.is_err() {
+                    break;
+                }
+            }
+        }
+        if r.is_ok() {
+            if sim.fork_delivered > 0 {
+                obs.label("fork-delivered");
+            }
+            match honest_phase(&mut sim, obs, overruns).await {
+                Ok(conv_with_work) => {
+                    // non-trivial: the adversary delivered at least one fork run and the honest phase
+                    // had heights to fetch and converged
+                    let nontrivial = sim.fork_delivered > 0 && conv_with_work;
+                    obs.eval(nontrivial.then(|| digest_of(sc)));
+                    obs.label_n("batches-started", sim.batches_started);
+                    obs.label_n("fork-runs-delivered", sim.fork_delivered);
+                }
+                Err(f) => r = Err(f),
+            }
+        }
+        sim.shutdown().await;
+        r
+    })
+}
+
+pub fn run(ctx: &mut Ctx) {
+    ctx.assume("the adversary holds no validator keys: forged answers are runs from a foreign-key fork (same-key forks linking to a stored parent are equivocation, outside the light-client trust model)");
+    ctx.assume("answers are limited to what the header-ex client's validation lets through (non-empty, at most the requested amount, consecutive requested heights, each header individually valid) plus header-ex errors; head requests are answered honestly or fail (trusted peers)");
+    ctx.assume("the sim replaces P2p by lumina's own mock (P2p::verif_mocked); header-ex client and libp2p are not in the loop");
+    ctx.assume("pruner model as in C25 (only removals the real pruner may do); header timestamps at least 15 min away from every window cutoff");
+    ctx.assume("liveness is bounded liveness in honest rounds under a virtual clock; select!/backoff randomness inside the syncer is not controlled");
+    ctx.essential(&[
+        "fork-delivered",
+        "fork-batch-rejected",
+        "fork-batch-served",
+        "answer-fork",
+        "answer-honest-then-fork",
+        "answer-prefix",
+        "answer-error",
+        "converged",
+        "honest-phase-starts-with-missing",
+        "reconnect",
+        "batch-below-top",
+        "batch-forward",
+    ]);
+    ctx.set_shrink_iters(300);
+    let thorough = ctx.tier == Tier::Thorough;
+    let cases = ctx.tier.pick(1200, 8000);
+    let overruns = AtomicU64::new(0);
+    ctx.proptest(
+        "syncer-safety-liveness",
+        "generated chain (zones older than both windows / between the cutoffs / inside), initial store content, batch size 4..64, adversarial schedule (honest/prefix/error/foreign-key fork/honest-then-fork answers, pruner-legal prunes, samples, new heads, disconnect/reconnect), then honest rounds; one evaluation per batch the syncer starts plus one per case; a case is non-trivial (digest of the recipe) when at least one fork run was delivered to the syncer and the honest phase started with missing in-window heights and converged",
+        cases,
+        move || {
+            scenario_strategy(
+                Sizes {
+                    max_a: 80,
+                    max_b: 40,
+                    min_c: 45,
+                    max_c: if thorough { 400 } else { 250 },
+                    max_steps: if thorough { 60 } else { 40 },
+                },
+                true,
+                false,
+            )
+        },
+        |sc, obs| case(sc, obs, &overruns),
+    );
+    let n = overruns.load(Ordering::Relaxed);
+    if n > 0 {
+        ctx.inconclusive(format!("C38: {n} case(s) overran the honest-round budget without being quiescent (see notes in the evidence)"));
+    }
 }
